@@ -232,11 +232,13 @@ func runGen(run *vk.Run, what, cfg string, workers int) {
 		vk.Infra("HeaderGen %s: specification-level failure: %s\n%s", what, res.Violated, res.Output)
 	}
 	cases := res.PrintsWithPrefix("CASE ")
+	syms := loadSyms(res)
 	parsedCases := make([]hcase, len(cases))
 	for i, c := range cases {
 		if err := json.Unmarshal([]byte(c), &parsedCases[i]); err != nil {
 			vk.Infra("bad CASE line from TLC: %v: %s", err, c[:min(len(c), 200)])
 		}
+		syms.fill(&parsedCases[i])
 	}
 	vk.Parallel(len(parsedCases), 16, func(i int) {
 		c := &parsedCases[i]
@@ -430,6 +432,12 @@ func oracle(run *vk.Run, rng *rand.Rand) {
 		}
 		add(fmt.Sprintf("%s@%d#%d", name, pos, i), b)
 	}
+	// binding self-test: one record with the implementation's verdict falsified must be singled out by TLC
+	fake := record("selftest-falsified", bases[0])
+	fake.Ok = !fake.Ok
+	fake.Stanzas, fake.Mac, fake.Rest = []stz{}, []int{}, []int{}
+	recs = append(recs, fake)
+	selfIdx := len(recs)
 	dir, err := os.MkdirTemp("", "c07o-")
 	if err != nil {
 		vk.Infra("%v", err)
@@ -445,15 +453,20 @@ func oracle(run *vk.Run, rng *rand.Rand) {
 	if res.Violated != "" || !res.OK {
 		vk.Infra("HeaderOracle failed: %s\n%s", res.Violated, res.Output)
 	}
-	run.Traces(len(recs))
+	run.Traces(len(recs) - 1)
 	bad := res.PrintsWithPrefix("BAD ")
 	judged := len(res.PrintsWithPrefix("JUDGED "))
 	_ = judged
+	selfSeen := false
 	for _, bline := range bad {
 		var v struct {
 			I    int    `json:"i"`
 			Why  string `json:"why"`
 			Name string `json:"name"`
+		}
+		if err := json.Unmarshal([]byte(bline), &v); err == nil && v.I == selfIdx {
+			selfSeen = true
+			continue
 		}
 		if err := json.Unmarshal([]byte(bline), &v); err != nil || v.I < 1 || v.I > len(inputs) {
 			vk.Infra("bad BAD line %q", bline)
@@ -465,8 +478,12 @@ func oracle(run *vk.Run, rng *rand.Rand) {
 	for i, in := range inputs {
 		CheckCase(run, in, nil, fmt.Sprintf("oracle-input:%d", i))
 	}
-	run.Add("oracle_records", len(recs))
-	run.Add("oracle_disagreements", len(bad))
+	if !selfSeen {
+		vk.Infra("binding self-test failed: HeaderOracle did not flag a falsified record")
+	}
+	run.Set("binding_selftest", "falsified record flagged by HeaderOracle")
+	run.Add("oracle_records", len(recs)-1)
+	run.Add("oracle_disagreements", len(bad)-1)
 	if len(recs) > 0 {
 		run.Sample(map[string]interface{}{"generator": "oracle", "record": recs[len(recs)/2]})
 	}
@@ -498,11 +515,46 @@ func HostileInputs(run *vk.Run) [][]byte {
 		vk.Infra("HeaderGen: %s\n%s", res.Violated, res.Output)
 	}
 	var out [][]byte
+	syms := loadSyms(res)
 	for _, l := range res.PrintsWithPrefix("CASE ") {
 		var c hcase
 		if json.Unmarshal([]byte(l), &c) == nil {
+			syms.fill(&c)
 			out = append(out, vk.Bytes(c.Input))
 		}
 	}
 	return out
+}
+
+// symTable: the bytes of each class/symbol as printed once by TLC ("SYMS ...").
+type symTable struct {
+	Intro []int            `json:"intro"`
+	Syms  map[string][]int `json:"syms"`
+}
+
+func loadSyms(res *vk.TLCResult) *symTable {
+	t := &symTable{}
+	if l := res.PrintsWithPrefix("SYMS "); len(l) >= 1 {
+		if err := json.Unmarshal([]byte(l[0]), t); err != nil {
+			// an empty table is printed as [] for the wf mode
+			t.Syms = map[string][]int{}
+		}
+	}
+	return t
+}
+
+// fill rebuilds the input of a case from its path when TLC did not print it.
+func (t *symTable) fill(c *hcase) {
+	if len(c.Input) > 0 || len(t.Intro) == 0 {
+		return
+	}
+	in := append([]int{}, t.Intro...)
+	for _, p := range c.Path {
+		b, ok := t.Syms[p]
+		if !ok {
+			vk.Infra("TLC did not print the bytes of class %q", p)
+		}
+		in = append(in, b...)
+	}
+	c.Input = in
 }
